@@ -66,8 +66,8 @@ Proof. induction fs as [|f t IH]; intros g H Hfs Hnames; simpl.
     { intros x Hx. apply Hfs. right; auto. }
     split; auto. split; [congruence|]. intros x y. rewrite A3, S3. split.
     + intros [[Hy|[-> [Hy1 Hy2]]]|[f' [Hf1 Hf2]]]; auto.
-      * right. exists f. split; auto. left; auto.
-      * right. exists f'. split; auto. right; auto.
+      * right. exists f. split; [left; reflexivity|auto].
+      * right. exists f'. split; [right; assumption|auto].
     + intros [Hy|[f' [[<-|Hf1] [-> [Hf2 Hf3]]]]]; auto.
       right. exists f'. auto. Qed.
 
@@ -118,7 +118,8 @@ Proof. intros Hnd. rewrite post_order_unfold.
   - apply NoDup_Permutation_bis; auto.
     + eapply NoDup_map_inv; eauto.
     + rewrite <- (map_length fname res), Hnames, (Permutation_length Hperm), <- (map_length fname ints).
-      apply Nat.eq_le_incl. apply Permutation_length. apply NoDup_Permutation; auto. apply Hwf.
+      apply Nat.eq_le_incl. apply Permutation_length. apply NoDup_Permutation; auto; [apply Hwf|].
+      intros x. symmetry. apply Hnodes.
   - apply sink_first_intro. intros l1 f l2 El p Hp.
     assert (Hf : In f ints) by (apply Hsub; rewrite El; apply in_or_app; right; left; auto).
     assert (Eo : order = map fname l1 ++ fname f :: map fname l2).
